@@ -173,15 +173,22 @@ def check_order_iter(ctx, led, v, rule="C05.order.iter"):
     n = 0
     for e in om.events(init_only=True):
         if e.kind == "input_order_iter":
+            matters, why = order_matters(ctx, v, "__init__")
+            if not matters:
+                led.ok(rule, "%s::%s" % (e.func.qualname if e.func else "?", short(e.node)), e.where(), "iterates the parsed map, but the constructed state is identical for the reversed field order")
+                continue
             led.violation(
                 rule,
                 "%s::%s" % (e.func.qualname if e.func else "?", short(e.node)),
                 e.where(),
-                "construction iterates the parsed metric map (%s): its order is the input's field order" % e.data.get("what"),
+                "construction iterates the parsed metric map (%s): its order is the input's field order (%s)" % (e.data.get("what"), why),
             )
     for s, (val, st, evs) in sorted(sinks.items()):
         n += 1
         bad = [e for e in evs if e.kind == "input_order_iter"]
+        if bad and not order_matters(ctx, v, s)[0]:
+            led.ok(rule, "%s.%s::iteration" % (om.clsname, s), om.module.where(om.cls.methods[s].node), "iterates the parsed map, but the result is identical for the reversed field order")
+            bad = []
         for e in bad:
             led.violation(
                 rule,
@@ -517,6 +524,8 @@ def check_models_order(ctx, led, prop):
             if any(ck in d for d in done):
                 continue
             done.add(ck)
+            if not order_matters(ctx, om.v, "__init__")[0]:
+                continue
             led.violation(
                 "%s.model.order" % prop,
                 ck,
@@ -525,3 +534,68 @@ def check_models_order(ctx, led, prop):
                 "property is decided on is the state for one field order only" % e.data.get("what"),
             )
     return n
+
+
+def order_matters(ctx, v, sink):
+    """Does an iteration of the parsed metric map in field order reach what `sink` reports
+    ("__init__": the state construction leaves)?  Decided by comparison: the object model is built
+    a second time with the parsed map holding its keys in the reverse order, and the canonical
+    results of both models are compared (a result that is sorted by a total key, built through
+    keyed lookups, or reduced by any/all/len is identical; one that keeps the iteration order, or
+    resolves ties or overwrites by it, is not).  Returns (False, None) | (True, description).
+    AnalysisError when the reversed model cannot be interpreted (not decided)."""
+    key = ("order_matters", v, sink)
+    if key in ctx.memo:
+        return ctx.memo[key]
+    from .interp import Inst
+
+    oa = get_model(ctx, v)
+    ob = get_model(ctx, v, map_order="reversed")
+
+    def canon_list(om, val, st):
+        cn = Canon(om.ev, st)
+        out = []
+        for t in flat_terms(val, st):
+            try:
+                out.append(cn(t))
+            except AnalysisError:
+                out.append(t)
+        if isinstance(val, Ref) and st.heap[val.id].kind == "map":
+            out.append(tuple(st.heap[val.id].order))
+        return out
+
+    res = (False, None)
+    if sink == "__init__":
+        ia, ib = oa.st.heap[oa.self_ref.id], ob.st.heap[ob.self_ref.id]
+        for name in sorted(set(ia.attrs) | set(ib.attrs)):
+            va, vb = ia.attrs.get(name), ib.attrs.get(name)
+            pa = isinstance(va, Ref) and oa.st.heap[va.id].kind == "map" and getattr(oa.st.heap[va.id], "input_ordered", False)
+            if pa:
+                # the parsed map itself (and copies of it) legitimately keeps the field order;
+                # compare its content per key
+                ma, mb = oa.st.heap[va.id], ob.st.heap[vb.id] if isinstance(vb, Ref) else None
+                if mb is None or set(ma.order) != set(mb.order):
+                    res = (True, "self.%s holds different keys" % name)
+                    break
+                ca, cb = Canon(oa.ev, oa.st), Canon(ob.ev, ob.st)
+                for k in ma.order:
+                    ea, eb = ma.entries[k], mb.entries[k]
+                    if [ca(x) if isinstance(x, Term) else x for x in ea] != [cb(x) if isinstance(x, Term) else x for x in eb]:
+                        res = (True, "self.%s[%r] differs between field orders" % (name, k))
+                        break
+                if res[0]:
+                    break
+                continue
+            if va is None or vb is None:
+                res = (True, "self.%s is set for one field order only" % name)
+                break
+            if canon_list(oa, va, oa.st) != canon_list(ob, vb, ob.st):
+                res = (True, "self.%s differs when the fields are written in the reverse order" % name)
+                break
+    else:
+        va, sta, _ = oa.call(sink)
+        vb, stb, _ = ob.call(sink)
+        if canon_list(oa, va, sta) != canon_list(ob, vb, stb):
+            res = (True, "%s() differs when the fields are written in the reverse order" % sink)
+    ctx.memo[key] = res
+    return res
